@@ -140,7 +140,8 @@ static void run_thread(DO& d, int tid, const std::vector<POp>& script, std::vect
                     break;
                 case FULFILL: {
                     VX v(val_str(p.val));
-                    d.fulfillAllPromises(v);
+                    if (p.val % 2) d.fulfillAllPromises(v);
+                    else d.fulfillAllPromises(VX(val_str(p.val)));  // an rvalue: every pending promise still gets the value
                     break;
                 }
                 case FINISH:
